@@ -140,6 +140,10 @@ func runProgProperty(pid, outDir string, seed int64, tier string, gen func(r *rn
 	if tier == "thorough" {
 		n = nThorough
 	}
+	if shrinkID >= 0 {
+		shrinkCase(pid, seed, tier, shrinkID, gen, n, shrinkM, outDir)
+		return
+	}
 	if workerFrom >= 0 {
 		debug.SetMaxStack(48 << 20)
 		r := &rng{s: uint64(seed) ^ hashString(pid)}
@@ -285,4 +289,20 @@ func runC01(outDir string, seed int64, tier string) {
 		return &progCase{prog: genProgram(r, f)}
 	}, 1000, 8000,
 		"random programs: 1-5 predicates of arity 0-3 with 1-4 clauses, nested terms/lists/partial lists in heads, bodies with conjunction, nested and top-level disjunction (no cut), call/N, arithmetic, between/3, member/2 and a library with direct and mutual recursion; queries of 1-3 goals; up to 12 answers compared as sequences up to variable renaming; distinct by program+query text; non-trivial = at least one answer or an error")
+}
+
+func runC03(outDir string, seed int64, tier string) {
+	f := feat{cut: true, ite: true, neg: true, once: true, callN: true, findall: true, nestedOr: true, topOr: true, arith: true, catch: false}
+	runProgProperty("C03", outDir, seed, tier, func(r *rng, i int) *progCase {
+		return &progCase{prog: genProgram(r, f)}
+	}, 1000, 8000,
+		"random programs as for C01 plus: '!' as a direct conjunct of clause bodies and of top-level disjuncts, cuts inside call/1, \\+, once/1, findall/3 goals, if-then(-else) and once with cut-free branches, nondeterministic goals before and after the cut; up to 12 answers compared as sequences; distinct by program+query text; non-trivial = at least one answer or an error")
+}
+
+func runC04(outDir string, seed int64, tier string) {
+	f := feat{cut: true, neg: true, callN: true, findall: true, nestedOr: true, topOr: true, arith: true, catch: true, builtinErr: true}
+	runProgProperty("C04", outDir, seed, tier, func(r *rng, i int) *progCase {
+		return &progCase{prog: genProgram(r, f)}
+	}, 1000, 8000,
+		"random programs as for C03 plus catch/3 and throw/1 at any nesting with balls that do or do not unify with the catchers and share variables with the goal, built-in errors (type, instantiation, evaluation), throws after a catch/3 goal has exited and after backtracking into it; answers and the final error term compared; distinct by program+query text; non-trivial = at least one answer or an error")
 }
